@@ -291,7 +291,8 @@ def coq_eval_dir(d, shards, timeout=1500):
             return k, [], None
         rc, out = sh(["timeout", str(timeout), "coqc", "-noglob", "-Q", COQ, "CC", f], cwd=d, timeout=timeout + 30)
         if rc != 0:
-            return k, None, out[-2000:]
+            why = "coqc timed out after %d s (the volume of this shard is too large for the machine's load)" % timeout if rc == 124 else "coqc exit %d" % rc
+            return k, None, why + ": " + out[-2000:]
         idx = parse_indices(out)
         if idx is None:
             return k, None, "unparsable coqc output: " + out[-1000:]
@@ -537,7 +538,7 @@ def correspondence(ctx, binary, sub, args, config, explain=None, shards=NCPU, th
     summary = run_harness(binary, [sub, "--seed", cseed, "--shards", shards, "--out", d] + list(args))
     summary["_seed"] = cseed
     ctx.add_cov(summary, config)
-    failing, errors = coq_eval_dir(d, shards)
+    failing, errors = coq_eval_dir(d, shards, timeout=1500 if ctx.quick else 3400)
     cases = None
     if os.path.exists(os.path.join(d, "cases.json")):
         try:
